@@ -12,6 +12,6 @@ for p in "$@"; do
   echo "[$p rc=$rc] $(echo "$out" | grep -E 'VIOLATION|^OK|KNOWN' | head -3 | tr '\n' ' ')"
   echo "$out" | grep '^#' | head -2
 done
-git -C /repo checkout -- .
+git -C /repo checkout -- . ; git -C /repo clean -fdq
 cp $BK/*.json /verif/evidence/ 2>/dev/null; rm -rf $BK
 (cd /verif && bin/translate-all >/dev/null 2>&1)
